@@ -36,15 +36,15 @@ Proof. unfold name_class. repeat case_decide; subst; split; intros; try discrimi
 Lemma name_class_pods k : name_class k = CPods <-> k = pods_name.
 Proof. unfold name_class. repeat case_decide; subst; split; intros; try discriminate; try reflexivity; try congruence. Qed.
 
-Lemma lookup_convert r k :
-  convert r !! k =
+Lemma lookup_convert_z r k :
+  convert_z r !! k =
   match scm r !! k with
   | Some v => Some (quantity_of k v)
   | None => if decide (k = cpu_name) then Some (cpu r)
             else if decide (k = mem_name) then Some (1000 * mem r) else None
   end.
 Proof.
-  unfold convert.
+  unfold convert_z.
   destruct (scm r !! k) as [v|] eqn:E.
   - apply lookup_union_Some_l. rewrite map_lookup_imap, E. reflexivity.
   - rewrite lookup_union_r by (rewrite map_lookup_imap, E; reflexivity).
@@ -73,22 +73,22 @@ Qed.
 (* Resource -> ResourceList -> Resource *)
 Definition names_kept (r : res) : Prop := forall k v, scm r !! k = Some v -> kept_scalar k = true.
 
-Lemma new_resource_convert_gen r :
+Lemma new_resource_convert_gen_z r :
   names_kept r -> sc r <> Some ∅ ->
-  new_resource (convert r) = (r, sget r pods_name).
+  new_resource_z (convert_z r) = (r, sget r pods_name).
 Proof.
-  intros Hk Hne. unfold new_resource.
+  intros Hk Hne. unfold new_resource_z.
   assert (Hcpu : scm r !! cpu_name = None).
   { destruct (scm r !! cpu_name) eqn:E; [|reflexivity]. apply Hk in E. vm_compute in E. discriminate. }
   assert (Hmem : scm r !! mem_name = None).
   { destruct (scm r !! mem_name) eqn:E; [|reflexivity]. apply Hk in E. vm_compute in E. discriminate. }
-  assert (Hs : map_imap scalar_of (convert r) = scm r).
-  { apply map_eq. intros k. rewrite map_lookup_imap, lookup_convert.
+  assert (Hs : map_imap scalar_of (convert_z r) = scm r).
+  { apply map_eq. intros k. rewrite map_lookup_imap, lookup_convert_z.
     destruct (scm r !! k) as [v|] eqn:E; cbn.
     - apply scalar_of_quantity_of. eapply Hk. exact E.
     - destruct (decide (k = cpu_name)) as [->|Hc]; [reflexivity|].
       destruct (decide (k = mem_name)) as [->|Hm]; reflexivity. }
-  rewrite Hs, !lookup_convert, Hcpu, Hmem. cbn [default].
+  rewrite Hs, !lookup_convert_z, Hcpu, Hmem. cbn [default].
   rewrite decide_True by reflexivity.
   rewrite decide_False by (vm_compute; congruence). rewrite decide_True by reflexivity.
   cbn [default]. unfold id. rewrite qvalue_units.
@@ -101,28 +101,20 @@ Proof.
     + rewrite decide_False by (vm_compute; congruence). rewrite decide_False by (vm_compute; congruence). reflexivity.
 Qed.
 
-Theorem new_resource_convert r : rt_domain r = true -> new_resource (convert r) = (r, sget r pods_name).
-Proof.
-  unfold rt_domain. rewrite !andb_true_iff. intros [[[H1 H2] _] _].
-  apply bool_decide_eq_true in H1. apply negb_true_iff, bool_decide_eq_false in H2.
-  apply new_resource_convert_gen; [|exact H2].
-  intros k v E. apply (H1 k v E).
-Qed.
-
 (* without the guards: what is lost — nothing on cpu / memory / kept scalars *)
-Lemma new_resource_convert_pointwise r :
+Lemma new_resource_convert_pointwise_z r :
   scm r !! cpu_name = None -> scm r !! mem_name = None ->
-  let r' := fst (new_resource (convert r)) in
+  let r' := fst (new_resource_z (convert_z r)) in
   cpu r' = cpu r /\ mem r' = mem r /\
   forall k, scm r' !! k = if kept_scalar k then scm r !! k else None.
 Proof.
-  intros Hcpu Hmem. unfold new_resource. cbn [fst Res.cpu Res.mem]. rewrite scm_lazy.
-  rewrite !lookup_convert, Hcpu, Hmem. cbn [default].
+  intros Hcpu Hmem. unfold new_resource_z. cbn [fst Res.cpu Res.mem]. rewrite scm_lazy.
+  rewrite !lookup_convert_z, Hcpu, Hmem. cbn [default].
   rewrite decide_True by reflexivity.
   rewrite decide_False by (vm_compute; congruence). rewrite decide_True by reflexivity.
   cbn [default]. unfold id. rewrite qvalue_units. split; [reflexivity|split; [reflexivity|]].
   intros k.
-  rewrite map_lookup_imap, lookup_convert.
+  rewrite map_lookup_imap, lookup_convert_z.
   destruct (scm r !! k) as [v|] eqn:E; cbn.
   - destruct (kept_scalar k) eqn:Ek; [apply scalar_of_quantity_of; exact Ek|].
     unfold kept_scalar in Ek. unfold scalar_of, quantity_of.
@@ -132,13 +124,13 @@ Proof.
 Qed.
 
 (* ResourceList -> Resource -> ResourceList *)
-Lemma scm_new_resource rl k : scm (fst (new_resource rl)) !! k = rl !! k ≫= scalar_of k.
+Lemma scm_new_resource_z rl k : scm (fst (new_resource_z rl)) !! k = rl !! k ≫= scalar_of k.
 Proof.
-  unfold new_resource. cbn [fst]. rewrite scm_lazy. apply map_lookup_imap.
+  unfold new_resource_z. cbn [fst]. rewrite scm_lazy. apply map_lookup_imap.
 Qed.
 
-Theorem convert_new_resource rl k :
-  let rl' := convert (fst (new_resource rl)) in
+Theorem convert_new_resource_z rl k :
+  let rl' := convert_z (fst (new_resource_z rl)) in
   match name_class k with
   | CCpu => rl' !! k = Some (default 0 (rl !! k))
   | CMem => rl' !! k = Some (1000 * qvalue (default 0 (rl !! k)))
@@ -147,8 +139,8 @@ Theorem convert_new_resource rl k :
   | CCountQuota | CIgnoredDev | CDropped => rl' !! k = None
   end.
 Proof.
-  cbn zeta. rewrite lookup_convert, scm_new_resource.
-  unfold new_resource. cbn [fst Res.cpu Res.mem].
+  cbn zeta. rewrite lookup_convert_z, scm_new_resource_z.
+  unfold new_resource_z. cbn [fst Res.cpu Res.mem].
   unfold scalar_of.
   destruct (name_class k) eqn:E.
   - apply name_class_cpu in E. subst. destruct (rl !! cpu_name); reflexivity.
@@ -172,12 +164,12 @@ Proof.
 Qed.
 
 (* the whole-unit guard under which memory and pods come back unchanged as well *)
-Corollary convert_new_resource_exact rl k m :
+Corollary convert_new_resource_exact_z rl k m :
   rl !! k = Some m -> kept_scalar k = true \/ k = cpu_name \/ k = mem_name ->
   (k = mem_name \/ k = pods_name -> (1000 | m)) ->
-  convert (fst (new_resource rl)) !! k = Some m.
+  convert_z (fst (new_resource_z rl)) !! k = Some m.
 Proof.
-  intros Hk Hclass Hwhole. pose proof (convert_new_resource rl k) as H. cbn zeta in H.
+  intros Hk Hclass Hwhole. pose proof (convert_new_resource_z rl k) as H. cbn zeta in H.
   destruct (name_class k) eqn:E.
   - rewrite H, Hk. reflexivity.
   - rewrite H, Hk. cbn [default]. apply name_class_mem in E. rewrite qvalue_whole by (apply Hwhole; auto). reflexivity.
